@@ -27,6 +27,14 @@ Definition rewrap {A} (r : res A) : res A :=
   | _ => r
   end.
 
+(* `except ValueError as e: raise ValueError(...)` (InvalidStructureErr derives from ValueError) *)
+Definition is_ve (x : exn) : bool := match x with ValueError | InvalidStructureErr => true | _ => false end.
+Definition rewrap_ve {A} (r : res A) : res A :=
+  match r with
+  | Raise x => if is_ve x then Raise ValueError else Raise x
+  | _ => r
+  end.
+
 Inductive seqtarget := TList | TDeque | TTuple | TSet.
 
 (* content_type(values) *)
@@ -73,12 +81,14 @@ Section Deser.
           match list_like j with
           | None => Raise ValueError
           | Some l =>
+              if (length l <? length items)%nat then Raise ValueError   (* len(value) < len(items) *)
+              else
               r <- (fix pos (fs : list field) (vs : list pyval) {struct fs} : res (list pyval) :=
                       match fs with
                       | [] => Ok vs                                   (* values += value[len(items):] *)
                       | g :: fs' =>
                           match vs with
-                          | [] => Raise IndexError                    (* value[i] *)
+                          | [] => Raise IndexError                    (* value[i]: not reached, the length was tested *)
                           | x :: vs' => y <- rewrap (deser_val ku false g x) ;; ys <- pos fs' vs' ;; Ok (y :: ys)
                           end
                       end) items l ;;
@@ -129,6 +139,7 @@ Section Deser.
           | FSeqEach SeqDeque g _ _ => each TDeque g
           | FSeqPos SeqList items _ _ _ => positional TList items
           | FSeqPos SeqDeque items _ _ _ => positional TDeque items
+          | FTuple [g] _ => each TTuple g                   (* a Tuple with ONE item field: every element *)
           | FTuple items _ => positional TTuple items
           | FSet _ (Some g) _ => each TSet g
           | FSet _ None _ => plain TSet
@@ -140,24 +151,18 @@ Section Deser.
           | FMapKV kf vf _ =>
               match j with
               | PDict kv =>
-                  (* deserialize_map does not pass keep_undefined on: the default (True) applies below it *)
-                  r <- mapR (fun p => k' <- deser_val true false kf (fst p) ;;
-                                      v' <- deser_val true false vf (snd p) ;; Ok (k', v')) kv ;;
+                  r <- mapR (fun p => k' <- deser_val ku false kf (fst p) ;;
+                                      v' <- deser_val ku false vf (snd p) ;; Ok (k', v')) kv ;;
                   if forallb (fun p => py_hashable (fst p)) r then Ok (PDict (dict_of_pairs [] r))
                   else Raise TypeError
               | _ => Raise TypeError
               end
           | FMapAny _ => match j with PDict _ => Ok j | _ => Raise TypeError end
-          | FEnumLit _ => _ <- validate_weak re_match e f j ;; Ok j
-          | FEnumCls cls members => deser_enum_cls f cls members j
+          (* a SerializableField: the ValueError of field.deserialize is raised again with the field's name *)
+          | FEnumLit _ => rewrap_ve (_ <- validate_weak re_match e f j ;; Ok j)
+          | FEnumCls cls members => rewrap_ve (deser_enum_cls f cls members j)
           | FAnything => Ok j
-          | FNone =>
-              (* TypedField over NoneType: ty( *[] ) and ty( **{} ) are NoneType() = None *)
-              match j with
-              | PList [] | PDict [] => Ok PNone
-              | PList _ | PDict _ => Raise TypeError
-              | _ => Raise ValueError
-              end
+          | FNone => Raise ValueError                         (* anything but None: "Expected None" *)
           end
       end.
 
